@@ -83,8 +83,6 @@ def classify_c12(line):
     except Exception:
         return None
 
-def classify_c09(line):
-    return None
 
 
 # ---- JSON layer ----
@@ -176,5 +174,55 @@ def classify_c06(line):
         if tag != 73 or len(impl) < 8 or impl[0] != 0: return None
         if impl[1:4] != [1, 1, 1] or impl[7] != 2: return None
         return 'circle.feature.rewritten'
+    except Exception:
+        return None
+
+
+def _bf(b):
+    import struct
+    return struct.unpack('<d', struct.pack('<q', int(b)))[0]
+
+def _dest(lat, lon, m, brg):
+    import math
+    d = m / 6371e3; th = math.radians(brg); p1 = math.radians(lat); l1 = math.radians(lon)
+    sp2 = math.sin(p1) * math.cos(d) + math.cos(p1) * math.sin(d) * math.cos(th)
+    cp2 = math.hypot(math.cos(p1) * math.cos(d) - math.sin(p1) * math.sin(d) * math.cos(th), math.sin(d) * math.sin(th))
+    p2 = math.atan2(sp2, cp2)
+    l2 = l1 + math.atan2(math.sin(th) * math.sin(d) * math.cos(p1), math.cos(d) - math.sin(p1) * math.sin(p2))
+    l2 = math.fmod(l2 + 3 * math.pi, 2 * math.pi) - math.pi
+    return math.degrees(p2), math.degrees(l2)
+
+def _circle_rect(clat, clon, m, steps):
+    """the rectangle of the polygon approximation (circle.go makeCircleObject)"""
+    import math
+    steps = max(steps, 3)
+    maxY, _ = _dest(clat, clon, m, 0); _, maxX = _dest(clat, clon, m, 90)
+    minY, _ = _dest(clat, clon, m, 180); _, minX = _dest(clat, clon, m, 270)
+    lons, lats = (maxX - minX) / 2, (maxY - minY) / 2
+    xs, ys = [], []
+    th = 0.0
+    while th <= 360.0:
+        r = math.pi / 180 * th
+        xs.append(clon + lons * math.cos(r)); ys.append(clat + lats * math.sin(r)); th += 360.0 / steps
+    return min(xs), min(ys), max(xs), max(ys)
+
+def classify_c09(line):
+    """Circle dispatch laws (tag 83): only the symmetry law (index 1) may fail, and only when the probe point lies
+    within the circle's radius but outside the rectangle of its polygon approximation (which the rectangle
+    pre-filter of collection.Search consults): few steps, antimeridian crossing, large radius at high latitude"""
+    import math
+    try:
+        tag, args, impl, spec = split_any(line)
+        if tag != 83: return None
+        if [i for i, x in enumerate(impl) if x != 1] != [1]: return None
+        clat, clon, m, steps = _bf(args[0]), _bf(args[1]), _bf(args[2]), args[3]
+        plat, plon = _bf(args[4]), _bf(args[5])
+        x0, y0, x1, y1 = _circle_rect(clat, clon, m, steps)
+        slack = 1e-9
+        outside = plon < x0 - slack or plon > x1 + slack or plat < y0 - slack or plat > y1 + slack
+        p1, l1, p2, l2 = [math.radians(v) for v in (plat, plon, clat, clon)]
+        h = math.sin((p2 - p1) / 2) ** 2 + math.cos(p1) * math.cos(p2) * math.sin((l2 - l1) / 2) ** 2
+        inside = 6371e3 * 2 * math.asin(math.sqrt(min(1.0, h))) <= m + 1e-3
+        return 'circle.rect-does-not-cover-disc' if (outside and inside) else None
     except Exception:
         return None
